@@ -269,6 +269,20 @@ def _setattr(it, ctx, a, k):
     return NONE
 
 
+@op("builtins.object.__setattr__")
+def _object_setattr(it, ctx, a, k):
+    """object.__setattr__(obj, name, value): the raw instance-dictionary write (bypasses any __setattr__ of the class)"""
+    o = a[0]
+    if not isinstance(a[1], VStr):
+        raise Undecided("object.__setattr__ with symbolic name")
+    if isinstance(o, VObj):
+        o.fields[a[1].s] = a[2]
+        ctx.writes.append(("field", id(o), a[1].s)) if hasattr(ctx, "writes") else None
+        return NONE
+    o.py_setattr(it, ctx, a[1].s, a[2])
+    return NONE
+
+
 @op("builtins.delattr")
 def _delattr(it, ctx, a, k):
     o = a[0]
